@@ -36,6 +36,11 @@ type c01Loop struct {
 	reset, fresh, threads, before bool
 }
 
+type c01KindCase struct {
+	fn, file, tag, kinds string
+	conds          []string
+}
+
 type c01Dispatch struct {
 	fn, file, cond string
 	inElse         bool
@@ -95,6 +100,7 @@ func c01Contains(n ast.Node, target ast.Node) bool {
 func genBindSites(o *out, all []funcInfo) {
 	var loops []c01Loop
 	var disp []c01Dispatch
+	var kcases []c01KindCase
 
 	for _, fi := range all {
 		if fi.decl.Body == nil {
@@ -200,6 +206,38 @@ func genBindSites(o *out, all []funcInfo) {
 			return true
 		})
 
+		// ---- C. reflect-kind switches (`switch rv := reflect.ValueOf(x); rv.Kind() { case reflect.Slice, reflect.Array: if … }`)
+		if fi.name == "Statement.AddVar" || fi.name == "Expr.Build" || fi.name == "NamedExpr.Build" {
+			ast.Inspect(fi.decl.Body, func(x ast.Node) bool {
+				sw, ok := x.(*ast.SwitchStmt)
+				if !ok || sw.Tag == nil || !strings.HasSuffix(src(sw.Tag), ".Kind()") {
+					return true
+				}
+				for _, c := range sw.Body.List {
+					cc := c.(*ast.CaseClause)
+					var kinds []string
+					for _, e := range cc.List {
+						kinds = append(kinds, src(e))
+					}
+					k := c01KindCase{fn: fi.name, file: fi.file, tag: src(sw.Tag), kinds: strings.Join(kinds, ", ")}
+					if len(kinds) == 0 {
+						k.kinds = "default"
+					}
+					if len(cc.Body) > 0 {
+						if is, ok := cc.Body[0].(*ast.IfStmt); ok {
+							for is != nil {
+								k.conds = append(k.conds, src(is.Cond))
+								next, _ := is.Else.(*ast.IfStmt)
+								is = next
+							}
+						}
+					}
+					kcases = append(kcases, k)
+				}
+				return true
+			})
+		}
+
 		// ---- B. NamedExpr dispatch -------------------------------------------------------------
 		var stack []ast.Node
 		ast.Inspect(fi.decl.Body, func(x ast.Node) bool {
@@ -278,6 +316,21 @@ func genBindSites(o *out, all []funcInfo) {
 		}
 		fmt.Fprintf(&b, "  { fn := %s, file := %s, sqlArg := %s, cond := %s, inElse := %v }%s\n",
 			lstr(d.fn), lstr(d.file), lstr(d.sqlArg), lstr(d.cond), d.inElse, sep)
+	}
+	b.WriteString("]\n")
+	b.WriteString("\n/-- one case of a `switch …Kind()` in AddVar / Expr.Build / NamedExpr.Build with the if/else-if conditions its body opens with -/\n")
+	b.WriteString("structure KindCase where\n  fn : String\n  file : String\n  tag : String\n  kinds : String\n  conds : List String\nderiving Repr, DecidableEq\n\n")
+	b.WriteString("def kindCases : List KindCase := [\n")
+	for i, k := range kcases {
+		sep := ","
+		if i == len(kcases)-1 {
+			sep = ""
+		}
+		var cs []string
+		for _, c := range k.conds {
+			cs = append(cs, lstr(c))
+		}
+		fmt.Fprintf(&b, "  { fn := %s, file := %s, tag := %s, kinds := %s, conds := [%s] }%s\n", lstr(k.fn), lstr(k.file), lstr(k.tag), lstr(k.kinds), strings.Join(cs, ", "), sep)
 	}
 	b.WriteString("]\n")
 	o.write("BindSites", b.String())
